@@ -20,15 +20,19 @@ std::string gen_base(Tape& t, size_t maxlen = 8) {
 	return s;
 }
 
-refclm::Chunk gen_chunk(Tape& t) {
+refclm::Chunk gen_chunk(Tape& t, bool afterData = false) {
 	refclm::Chunk c; memcpy(c.tag, extraTags[t.below(13)], 5);
 	c.body = t.bytes(2 * t.below(12));   // even-sized
+	// one chunk in six carries a decoy: the bytes of a 'data' / 'fmt ' chunk header inside its payload (a search must walk the chunk chain, not scan bytes)
+	if (t.below(6) == 0) { const char* d = t.flag() ? "data" : "fmt "; c.body.assign(d, d + 4); refvol::put32(c.body, uint32_t(t.below(40))); for (unsigned i = 0; i < 8; ++i) c.body.push_back(t.u8()); }
+	// after the audio data a second 'data' or 'fmt ' chunk may follow: the first of each is the one that counts
+	if (afterData && t.below(5) == 0) { memcpy(c.tag, t.flag() ? "data" : "fmt ", 5); c.body = t.bytes(2 * (8 + t.below(6))); }
 	return c;
 }
 
 Wav gen_wav(Tape& t, const refclm::WaveFormat& f, size_t maxData) {
 	Wav w; w.base = gen_base(t);
-	w.ext = t.pick<std::string>({".wav", ".WAV", ".Wav", ".wAv"});
+	w.ext = t.pick<std::string>({".wav", ".WAV", ".Wav", ".wAv", ".wav", ".wav", "", ".wave", ".w", ".snd"});   // the base name is the file name without its last extension, whatever it is
 	w.dir = t.pick<std::string>({"", "", "%d0/", "%d1/%sub/"});
 	w.spec.fmt = f; w.spec.fmt18 = t.flag(); w.spec.cb = 0;
 	size_t dl = t.pick<uint32_t>({0, 1, 2, 3, 7, 64, 100, 4096});
@@ -38,7 +42,7 @@ Wav gen_wav(Tape& t, const refclm::WaveFormat& f, size_t maxData) {
 	if (t.below(3) == 0) nb = nm = na = 0;
 	for (unsigned i = 0; i < nb; ++i) w.spec.beforeFmt.push_back(gen_chunk(t));
 	for (unsigned i = 0; i < nm; ++i) w.spec.between.push_back(gen_chunk(t));
-	for (unsigned i = 0; i < na; ++i) w.spec.afterData.push_back(gen_chunk(t));
+	for (unsigned i = 0; i < na; ++i) w.spec.afterData.push_back(gen_chunk(t, true));
 	w.bytes = refclm::build_wav(w.spec);
 	return w;
 }
@@ -56,6 +60,7 @@ void success_case(std::vector<Wav> ws, const refclm::WaveFormat& f, Tape& t, Sta
 	std::vector<std::string> paths; for (auto& w : ws) paths.push_back(t.below(3) == 0 ? "./" + w.path : w.path);
 	for (size_t i = paths.size(); i > 1; --i) { size_t j = t.below(i); std::swap(paths[i - 1], paths[j]); }
 	volgen::mkdirs("%o/"); std::string out = "%o/out.clm"; remove(out.c_str());
+	if (t.below(3) == 0) write_file(out, std::vector<uint8_t>(300000, 0x6B));   // an older, longer file is replaced, not overwritten in place
 	std::string what;
 	Out o = guarded([&] { ClmFile::CreateArchive(out, paths); }, &what);
 	V_CHECK(o == Out::Ok, "CreateArchive refused a legal WAV set (" << ws.size() << " files): " << what);
@@ -90,6 +95,16 @@ void success_case(std::vector<Wav> ws, const refclm::WaveFormat& f, Tape& t, Sta
 		V_CHECK(c.GetIndex(volgen::case_variant(w.base, t.u64())) == i, "GetIndex in another letter case");
 	}
 	c.ExtractAllFiles("%x/all");
+	// fixpoint: packing the extracted WAVs (named by their base names) gives the same archive, byte for byte
+	if (!ws.empty()) {
+		std::vector<std::string> ex; for (auto& w : ws) ex.push_back("%x/all/" + w.base);
+		for (size_t i = ex.size(); i > 1; --i) std::swap(ex[i - 1], ex[t.below(i)]);
+		std::string out2 = "%o/repack.clm"; remove(out2.c_str());
+		Out o2 = guarded([&] { ClmFile::CreateArchive(out2, ex); }, &what);
+		V_CHECK(o2 == Out::Ok, "re-packing the extracted WAV files was refused: " << what);
+		V_CHECK(slurp(out2) == raw, "re-packing the extracted WAV files does not reproduce the archive byte for byte");
+		remove(out2.c_str());
+	}
 	for (auto& w : ws) { refclm::WaveFormat xf; std::vector<uint8_t> xd; err = refclm::parse_extracted(slurp("%x/all/" + w.base), xf, xd); V_CHECK(err.empty() && xd == w.spec.data && xf == f, "ExtractAllFiles output for " << jstr(w.base) << " wrong: " << err); remove(("%x/all/" + w.base).c_str()); }
 	bool chunky = false; for (auto& w : ws) { if (!w.spec.afterData.empty()) { chunky = true; st.cls("src:chunk_after_data"); } if (!w.spec.beforeFmt.empty()) { chunky = true; st.cls("src:chunk_before_fmt"); } if (!w.spec.between.empty()) st.cls("src:chunk_between"); if (!w.spec.fmt18) st.cls("src:fmt16"); if (w.spec.data.size() & 1) st.cls("src:odd_data"); }
 	st.cls("tracks:" + std::to_string(ws.size()));
@@ -180,6 +195,19 @@ void run_sweep(Stats& st) {
 			Wav w; w.base = i ? "zz_tail" : "Big"; w.ext = ".wav"; w.dir = "";
 			w.spec.fmt = f; w.spec.fmt18 = true; w.spec.data.resize(i ? 9 : dlen); for (size_t k = 0; k < w.spec.data.size(); ++k) w.spec.data[k] = uint8_t(k ^ (k >> 8) ^ (k >> 15) ^ i);
 			if (after) { refclm::Chunk c; memcpy(c.tag, "LIST", 5); c.body = {1, 2, 3, 4}; w.spec.afterData.push_back(c); }
+			w.bytes = refclm::build_wav(w.spec); ws.push_back(w);
+		}
+		Tape t(tp); success_case(ws, f, t, st);
+	}
+	// long chunk chains and a large chunk after the data
+	for (unsigned variant = 0; variant < 3; ++variant) {
+		if (!sw("chunk_chain", variant)) continue;
+		std::vector<Wav> ws;
+		for (unsigned i = 0; i < 2; ++i) {
+			Wav w; w.base = i ? "second" : "First"; w.ext = ".wav"; w.dir = ""; w.spec.fmt = f; w.spec.fmt18 = variant != 1; w.spec.data.assign(2 + i, uint8_t(0x40 + i));
+			refclm::Chunk c; memcpy(c.tag, "JUNK", 5);
+			if (variant == 0) { for (unsigned k = 0; k < 60; ++k) { c.body.assign(2 * (k % 4), uint8_t(k)); w.spec.beforeFmt.push_back(c); w.spec.between.push_back(c); } }
+			if (variant >= 1) { c.body.assign(200000, 0xEE); w.spec.afterData.push_back(c); }
 			w.bytes = refclm::build_wav(w.spec); ws.push_back(w);
 		}
 		Tape t(tp); success_case(ws, f, t, st);
